@@ -168,11 +168,21 @@ OracleOK == LET o1 == O1 IN BoundStableAt(o1) /\ MonotoneNAt(o1) /\ RelFaithfulA
 RECURSIVE Reach(_)
 Reach(k) == IF k = 0 THEN Inits ELSE LET R == Reach(k - 1) IN R \cup UNION { Succ(s) : s \in R }
 Universe == Reach(MaxConn)
+RECURSIVE HasWit(_), NegBinder(_, _)
+HasWit(t) == (IsQ(t) /\ t[4] > 0) \/ \E i \in 1..Len(t[5]) : HasWit(t[5][i])
+\* some binder occurs in a negative position (under an odd number of negations / left sides of implications) or under iff
+NegBinder(t, neg) == IF IsQ(t) THEN neg \/ NegBinder(t[5][1], neg)
+                     ELSE IF t[1] = "op" /\ t[2] = "neg" THEN NegBinder(t[5][1], ~neg)
+                     ELSE IF t[1] = "op" /\ t[2] = "implies" THEN NegBinder(t[5][1], ~neg) \/ NegBinder(t[5][2], neg)
+                     ELSE IF t[1] = "op" /\ t[2] = "equals" THEN HasKind(t, "all") \/ HasKind(t, "exists")
+                     ELSE \E i \in 1..Len(t[5]) : NegBinder(t[5][i], neg)
 \* POSTCONDITION of the model-checking run: the declarative universe IS the explored state space; it is written as vectors
 Emit == LET us == SetToSeqC({ <<s.flv, s.f>> : s \in Universe })
             vs == [i \in 1..Len(us) |-> [id |-> i, flv |-> us[i][1], f |-> us[i][2]]] IN
         /\ Cardinality(Universe) = TLCGet("distinct")
         /\ ndJsonSerialize(IOEnv.VECTOR_FILE, vs)
         /\ PrintT(<<"vectors", Len(vs), "anchors_in_universe",
-                    Cardinality({ a \in AnchorFalse \cup AnchorTrue : \E s \in Universe : s.f = a })>>)
+                    Cardinality({ a \in AnchorFalse \cup AnchorTrue : \E s \in Universe : s.f = a }),
+                    "with_a_binder_decided_over_a_witness_interval", Cardinality({ s \in Universe : HasWit(Prep(s.f)) }),
+                    "with_a_binder_under_negation_or_left_of_implies", Cardinality({ s \in Universe : NegBinder(s.f, FALSE) })>>)
 =============================================================================
